@@ -127,6 +127,8 @@ def c04(run):
     r_width.run_a(run, P)
     r_fixup.run_stale(run, P, only=_codec_funcs(P))
     r_fixup.run_pairing(run, P)
+    from rules import r_codec
+    r_codec.run(run, P)
     run.min_instances('R-FIXUP', 8)
     run.assumptions = ASSUME_COMMON + ["equality with the list model after arbitrary edit sequences is NOT decided"]
     return run.finish(
@@ -139,6 +141,7 @@ def c05(run):
     from rules import r_stream
     P = run.prog('rel')
     r_stream.run_adv(run, P)
+    r_stream.run_phase(run, P)
     r_stream.run_cap(run, P)
     run.min_instances('R-STREAM-ADV', 4)
     run.min_instances('R-STREAM-CAP', 4)
@@ -206,6 +209,7 @@ def c06(run):
     P = run.prog('rel')
     r_ownnode.run(run, P)
     r_ownnode.run_retrans(run, P)
+    r_ownnode.run_queue_key(run, P)
     run.min_instances('R-OWN-NODE', 8)
     run.min_instances('R-RETRANS', 2)
     run.assumptions = ASSUME_COMMON + ["timing (T, 2T, 4T; reported wait <= earliest deadline), byte-identical retransmission and behaviour under loss patterns are NOT decided",
